@@ -24,8 +24,8 @@ M = [
     ("C01", "chardata-loses-amp", "parser/src/lib.rs",
      "helper::take_until(xmlchar::char_except0(\"<&\"), \"]]>\")(input)", "helper::take_until(xmlchar::char_except0(\"<\"), \"]]>\")(input)", "R01-1"),
     ("C02", "rest-not-tested-element-empty", "info/src/lib.rs",
-     "        let (rest, tree) = xml_parser::element(xml.as_str())?;\n        if rest.is_empty() {",
-     "        let (rest, tree) = xml_parser::element(xml.as_str())?;\n        if rest.is_empty() || !rest.is_empty() {", None),
+     "        let (rest, tree) = xml_parser::element(xml.as_str())?;\n        if rest.is_empty() && tree.attributes.is_empty() && !has_white_space(name) {",
+     "        let (_rest, tree) = xml_parser::element(xml.as_str())?;\n        if tree.attributes.is_empty() && !has_white_space(name) {", "R02-1"),
     ("C02", "attvalue-allows-lt", "parser/src/lib.rs",
      "map(xmlchar::char_except1(\"<&\\\"\"), model::AttributeValue::from),", "map(xmlchar::char_except1(\"&\\\"\"), model::AttributeValue::from),", "R01-1"),
     ("C02", "comment-allows-double-dash", "parser/src/lib.rs",
